@@ -3,8 +3,8 @@
     of the header's documentation and of the property text, without buffers).  Only property theorems here. *)
 From Coq Require Import NArith ZArith List Bool.
 From M17 Require Import Bits ImplCRC ConstsCrc ImplFrameDecoder SpecFrames FrameDecoderInst ImplViterbi SpecConv
-  LemmasFD_Hidden LemmasFD_Refine LemmasFD_Inst LemmasFD_Consts LemmasFD_Examples LemmasFD_C08 LemmasFD_History
-  LemmasFD_HistoryInst Properties_C02.
+  LemmasFD_Hidden LemmasFD_Refine LemmasFD_Inst LemmasFD_Consts LemmasFD_Examples LemmasFD_C08 LemmasFD_Since
+  LemmasFD_SinceInst Properties_C02.
 Import ListNotations.
 
 (** 1. No hidden state, one call: two decoders in the same visible state (mode, LICH bitmap, LSF assembly buffer)
